@@ -300,6 +300,39 @@ def enc_info2(ci):
     return 'O'
 
 
-for _n, _f in (('pyastinfos', op_pyastinfos), ('pynum', op_pynum), ('numhandler', op_numhandler), ('tablevars', op_tablevars), ('joinresolve', op_joinresolve), ('exceptcols', op_exceptcols), ('dictvars', op_dictvars), ('attrvars', op_attrvars), ('directvars', op_directvars), ('clidialect', op_clidialect), ('starcount', op_starcount), ('starvars', op_starvars), ('starmarker', op_starmarker), ('trsel', op_trsel), ('updpairs', op_updpairs),
+def op_itervars(kind, js, pfx, query, names, norm):
+    """get_variables_map of the REAL input adapters (lists, pandas dataframe, CSV stream, sqlite table) on a table with the given column names"""
+    import io
+    ns = None if names == 'N' else dec_list(names[1:])
+    q, p = dec_str(query), dec_str(pfx)
+    try:
+        if kind == 'table':
+            it = rbql_engine.TableIterator([], ns, norm == '1', p)
+        elif kind == 'pandas':
+            import pandas
+            from rbql import rbql_pandas
+            df = pandas.DataFrame([['x'] * 2]) if ns is None else pandas.DataFrame([['x'] * len(ns)], columns=ns)
+            it = rbql_pandas.DataframeIterator(df, norm == '1', p)
+        elif kind == 'csv':
+            from rbql import rbql_csv, csv_utils
+            text = 'x,y\n' if ns is None else ','.join(csv_utils.rfc_quote_field(n, ',') for n in ns) + '\nx\n'
+            it = rbql_csv.CSVRecordIterator(io.StringIO(text), None, ',', 'quoted_rfc', has_header=ns is not None, variable_prefix=p)
+        elif kind == 'sqlite':
+            import sqlite3
+            from rbql import rbql_sqlite
+            conn = sqlite3.connect(':memory:')
+            conn.execute('CREATE TABLE t (%s)' % ', '.join('"%s" TEXT' % n.replace('"', '""') for n in ns))
+            it = rbql_sqlite.SqliteRecordIterator(conn, 't', p)
+        else:
+            return 'err kind'
+        d = it.get_variables_map(q)
+    except rbql_engine.RbqlIOHandlingError as e:
+        return 'err width' if 'different lengths' in str(e) else 'err badname'
+    except rbql_engine.RbqlParsingError:
+        return 'err notfound'
+    return enc_varmap(d)
+
+
+for _n, _f in (('itervars', op_itervars), ('pyastinfos', op_pyastinfos), ('pynum', op_pynum), ('numhandler', op_numhandler), ('tablevars', op_tablevars), ('joinresolve', op_joinresolve), ('exceptcols', op_exceptcols), ('dictvars', op_dictvars), ('attrvars', op_attrvars), ('directvars', op_directvars), ('clidialect', op_clidialect), ('starcount', op_starcount), ('starvars', op_starvars), ('starmarker', op_starmarker), ('trsel', op_trsel), ('updpairs', op_updpairs),
                ('basicvars', op_basicvars), ('arrayvars', op_arrayvars), ('selinfos', op_selinfos)):
     impl_py.register(_n, _f)
